@@ -7,15 +7,21 @@ package controllers
 // compared with reflect.DeepEqual exactly as the reconcilers compare.
 
 import (
+	"context"
 	"fmt"
 	"reflect"
 	"strings"
 	"testing"
 
+	"github.com/go-kit/log"
 	"go.universe.tf/metallb/internal/config"
 	"go.universe.tf/metallb/internal/verifcfg"
 	vw "go.universe.tf/metallb/internal/verifworld"
+	corev1 "k8s.io/api/core/v1"
+	metav1 "k8s.io/apimachinery/pkg/apis/meta/v1"
+	"k8s.io/apimachinery/pkg/types"
 	"pgregory.net/rapid"
+	ctrl "sigs.k8s.io/controller-runtime"
 )
 
 type c18Perm struct {
@@ -270,4 +276,126 @@ func TestVerifC18ToConfig(t *testing.T) {
 		Rule: "cluster snapshots (1..6 disjoint pools incl. several pinned to one namespace, up to 4 peers, 4 L2 / 5 BGP advertisements, communities, BFD profiles, nodes, namespaces; about one in three deliberately invalid) x 1..4 random permutations of every listed kind x 1..3 repetitions -> toConfig, compared with reflect.DeepEqual; non-trivial = a non-identity permutation of a kind with >=3 objects",
 		Assumptions: []string{"reflect.DeepEqual is the comparison the reconcilers use (config_controller.go, pool_controller.go)"}},
 		genC18, runC18)
+}
+
+// ---- reconciler level: an unchanged snapshot, re-listed in any order, never reaches the handler again ----
+
+type c18RecCase struct {
+	Cluster   vw.ClusterSpec `json:"cluster"`
+	Perms     []c18Perm      `json:"perms"`
+	Validator int            `json:"validator"`
+	Pool      bool           `json:"pool_reconciler"`
+	Results   []int          `json:"results"` // handler results in order: 0 success, 1 error (retry), 2 reprocess-all
+	Touch     []int          `json:"touch"`   // before re-reconcile #i: 0 nothing, 1 node status heartbeat, 2 unrelated secret appears
+}
+
+func genC18Rec(rt *rapid.T) c18RecCase {
+	c := c18RecCase{Cluster: genC18Cluster(rt), Validator: rapid.SampledFrom([]int{0, 0, 0, 2}).Draw(rt, "validator"), Pool: rapid.Bool().Draw(rt, "poolRec")}
+	for i, n := 0, rapid.IntRange(1, 5).Draw(rt, "nperms"); i < n; i++ {
+		c.Perms = append(c.Perms, genC18Perm(rt, c.Cluster))
+		c.Touch = append(c.Touch, rapid.IntRange(0, 2).Draw(rt, "touch"))
+	}
+	c.Results = rapid.SliceOfN(rapid.SampledFrom([]int{0, 2, 2, 1}), 1, 4).Draw(rt, "results")
+	return c
+}
+
+func applyWorldPerm(w *vw.World, base *vw.World, p c18Perm) {
+	w.Pools = applyPerm(base.Pools, p.Pools)
+	w.Peers = applyPerm(base.Peers, p.Peers)
+	w.BFDs = applyPerm(base.BFDs, p.BFD)
+	w.L2Advs = applyPerm(base.L2Advs, p.L2)
+	w.BGPAdvs = applyPerm(base.BGPAdvs, p.BGP)
+	w.Comms = applyPerm(base.Comms, p.Comms)
+	w.Nodes = applyPerm(base.Nodes, p.Nodes)
+	w.Namespaces = applyPerm(base.Namespaces, p.Namespaces)
+}
+
+func runC18Rec(c c18RecCase, tr *vw.Trace) *vw.Violation {
+	base := vw.NewWorld()
+	base.SetCluster(c.Cluster)
+	w := vw.NewWorld()
+	w.SetCluster(c.Cluster)
+	calls, reloads := 0, 0
+	next := func() SyncState {
+		r := 0
+		if calls < len(c.Results) {
+			r = c.Results[calls]
+		}
+		calls++
+		switch r {
+		case 1:
+			return SyncStateError
+		case 2:
+			tr.Class("handler-asked-reprocess-all")
+			return SyncStateReprocessAll
+		}
+		return SyncStateSuccess
+	}
+	var reconcile func() error
+	if c.Pool {
+		r := &PoolReconciler{Client: w, Logger: log.NewNopLogger(), Namespace: vw.MetalNS, ValidateConfig: c18Validator(c.Validator),
+			Handler: func(log.Logger, *config.Pools) SyncState { return next() }, ForceReload: func() { reloads++ }}
+		reconcile = func() error {
+			_, err := r.Reconcile(context.Background(), ctrl.Request{NamespacedName: types.NamespacedName{Namespace: vw.MetalNS, Name: "x"}})
+			return err
+		}
+		tr.Class("pool-reconciler")
+	} else {
+		r := &ConfigReconciler{Client: w, Logger: log.NewNopLogger(), Namespace: vw.MetalNS, ValidateConfig: c18Validator(c.Validator),
+			Handler: func(log.Logger, *config.Config) SyncState { return next() }, ForceReload: func() { reloads++ }}
+		reconcile = func() error {
+			_, err := r.Reconcile(context.Background(), ctrl.Request{NamespacedName: types.NamespacedName{Namespace: vw.MetalNS, Name: "x"}})
+			return err
+		}
+		tr.Class("config-reconciler")
+	}
+	// converge: retry while the handler reports a transient error (as the work queue would)
+	for i := 0; i < 8; i++ {
+		if err := reconcile(); err == nil {
+			break
+		}
+		tr.Class("retried-after-error")
+	}
+	if calls == 0 {
+		tr.Class("snapshot-rejected")
+	}
+	c18Classes(c.Cluster, tr)
+	c0, r0 := calls, reloads
+	for i, p := range c.Perms {
+		applyWorldPerm(w, base, p)
+		switch c.Touch[i] {
+		case 1:
+			if len(w.Nodes) > 0 { // a status heartbeat: not part of the configuration
+				n := w.Nodes[0].DeepCopy()
+				n.Status.Phase = corev1.NodeRunning
+				n.ResourceVersion = fmt.Sprint(i + 2)
+				w.Nodes[0] = n
+				tr.Class("unrelated-node-status-change")
+			}
+		case 2:
+			w.Secrets = append(w.Secrets, &corev1.Secret{ObjectMeta: metav1.ObjectMeta{Name: fmt.Sprintf("unrelated%d", i), Namespace: vw.MetalNS}})
+			tr.Class("unrelated-secret")
+		}
+		if p.nonTrivial() || c.Touch[i] != 0 {
+			tr.NonTrivial()
+		}
+		if err := reconcile(); err != nil {
+			return vw.Violationf("rereconcile-error", "re-reconciling the unchanged snapshot returned %v", err)
+		}
+		if calls != c0 || reloads != r0 {
+			which := "ConfigReconciler"
+			if c.Pool {
+				which = "PoolReconciler"
+			}
+			return vw.Violationf("unchanged-snapshot-reloaded", "%s: re-reconcile #%d of an unchanged snapshot (only the listing order / an unrelated object changed) invoked the handler %d more time(s) and requested %d more full re-sync(s); first handler results %v", which, i+1, calls-c0, reloads-r0, c.Results)
+		}
+	}
+	return nil
+}
+
+func TestVerifC18Reconcilers(t *testing.T) {
+	vw.Run(t, vw.Options{Property: "C18", Engine: "reconcilers",
+		Rule: "the real ConfigReconciler / PoolReconciler over the mini API server: converge on a generated snapshot (handler answering success / reprocess-all / transient error), then re-reconcile 1..5 times with permuted listing orders and unrelated changes (node status heartbeat, unrelated secret); handler invocations and forced re-syncs are counted; non-trivial = a non-identity permutation of >=3 objects or an unrelated change",
+		Assumptions: []string{"a node status change and an unrelated secret are not part of the configuration"}},
+		genC18Rec, runC18Rec)
 }
